@@ -179,8 +179,8 @@ def capture_site_rules(ctx: Ctx, rid: str) -> None:
     ctx.check("isinstance(args[0], EvalContext)" in s and "autoescape = args[0].autoescape" in s and "autoescape = self._default_autoescape" in s, "Macro.__call__:autoescape", "runtime:Macro.__call__", "autoescape source", "a macro must take autoescape from the caller's eval context (falling back to its default)", mc.loc())
     for meth in ("__call__", "_async_call"):
         fi = repo.func(f"runtime:BlockReference.{meth}")
-        mk = [c for c in astq.calls(fi.node) if astq.callee(c) == "Markup"]
-        ok = len(mk) == 1 and any(ast.unparse(g) == "self._context.eval_ctx.autoescape" and pol for g, pol in guards_of(mk[0]))
+        mk = [c for c in astq.calls(fi.nnode) if astq.callee(c) == "Markup"]
+        ok = len(mk) == 1 and ("self._context.eval_ctx.autoescape", True) in astq.guard_atoms(fi.nnode, mk[0])
         ctx.check(ok, f"BlockReference.{meth}", f"runtime:BlockReference.{meth}", "block result marking", "a block reference (super / self.block) must return Markup exactly when the context autoescapes", fi.loc())
     md = repo.func("compiler:CodeGenerator.macro_def")
     ctx.check("context.eval_ctx.autoescape)" in ast.unparse(md.node), "macro_def:default", "compiler:CodeGenerator.macro_def", "default autoescape", "the emitted Macro must receive context.eval_ctx.autoescape as its default", md.loc())
